@@ -72,7 +72,7 @@ def gen(rng, kind, tier):
     case = {"grid": spec, "image": {"type": t, "seed": int(rng.integers(1 << 30))}, "rule": thr,
             "minimal_radius": str(rng.choice(["-inf", "0", "0", "0.6", "1.2"])),
             "a": float(rng.choice([0.25, 0.5, 2.0, 8.0, 1.0])), "b": float(rng.integers(-40, 41)) / 8.0,
-            "extreme_map": bool(rng.random() < 0.15),
+            "extreme_map": bool(rng.random() < 0.15), "nan_cells": bool(rng.random() < 0.12),
             "refine": bool(rng.random() < 0.06), "thr_seed": int(rng.integers(1 << 30))}
     return case
 
@@ -144,9 +144,16 @@ def run(case, rec):
     grid = geom.make_grid(spec)
     data = make_image(grid, spec, case["image"])
     rule = case["rule"]
+    if case.get("nan_cells") and rule == "number":
+        # a few invalid (NaN) pixels: they never exceed a threshold, whatever its sign
+        r_n = np.random.default_rng(case["thr_seed"] + 1)
+        flat = data.reshape(-1)
+        for k in r_n.choice(flat.size, size=min(flat.size, int(r_n.integers(1, 5))), replace=False):
+            flat[k] = np.nan
+        rec.count("images_with_nan_cells")
     rho = float(case["minimal_radius"])
     r = np.random.default_rng(case["thr_seed"])
-    levels = np.unique(data)
+    levels = np.unique(data[np.isfinite(data)]) if np.any(np.isfinite(data)) else np.array([0.0])
     if rule == "number":
         if r.random() < 0.5 or len(levels) < 2:
             T = float(r.choice(levels))  # exactly on a data level: tests the strictness of '>'
@@ -245,7 +252,7 @@ def run(case, rec):
             rec.check(msnap(c2.result) == msnap(got), "affine-invariant",
                       f"result changes under the exact map f -> {a}*f + {b} (threshold mapped alike): "
                       f"{len(got)} vs {len(c2.result)} droplets; {label}")
-    if case["refine"] and len(cand) and rho > -np.inf:
+    if case["refine"] and len(cand) and rho > -np.inf and bool(np.all(np.isfinite(data))):
         c3, _ = analyse(data, thr_arg, refine=True)
         if rec.check(c3.ok, "no-exception", f"refine raised {common.exc_text(c3.exc) if c3.exc else ''}; {label}"):
             rec.check(all(d.radius > rho for d in c3.result), "size-filter",
